@@ -33,3 +33,49 @@ int main(){
     for(long k=0;k<cnt;++k) if(y[int(k)]!=double(a+k*m)){ std::printf("element %%ld\\n",k); return 1; } }
   return 0; }
 ''' % (n, i1, i2, st)
+
+
+def vec_lit(m, key, cplx=False):
+    els = m.get(key) or []
+    if cplx:
+        return '{' + ','.join('cmplx_t{%s,%s}' % (frac(e[0]), frac(e[1])) for e in els) + '}'
+    return '{' + ','.join(frac(e[0]) for e in els) + '}'
+
+
+def frac(s):
+    s = str(s)
+    if '/' in s:
+        a, b = s.split('/')
+        return '(%s.0/%s.0)' % (a, b)
+    if s in ('True', 'False'):
+        return s.lower()
+    return s + ('.0' if s.lstrip('-').isdigit() else '')
+
+
+@adapter(r'base_array::operator(>|<|==)\(array\)')
+def arr_compare(o):
+    m = o['model'] or {}
+    n1, n2 = I(m, 'this._vec.len'), I(m, 'rhs._vec.len')
+    if max(n1, n2) > 1 << 16:
+        return None
+    op = '>' if 'operator>' in o['name'] else ('<' if 'operator<' in o['name'] else '==')
+    return HDR + '''
+int main(){ arr_real a(%d), b(%d);
+  try { auto r = (a %s b); if((int)r.size()!=a.size()) return 1; } catch(const std::exception&) {} return 0; }
+''' % (n1, n2, op)
+
+
+@adapter(r'base_array::operator\[\]\(vector<int>\)')
+def arr_index_list(o):
+    m = o['model'] or {}
+    n = I(m, 'this._vec.len')
+    idx = [e[0] for e in (m.get('idxs[]') or [])]
+    if n > 1 << 16:
+        return None
+    return HDR + '''
+int main(){ arr_real a(%d); for(int i=0;i<a.size();++i) a[i]=i+1; std::vector<int> ix = {%s};
+  bool bad=false; for(int v: ix) if(v<0||v>=a.size()) bad=true; bool thrown=false;
+  try { auto r = a[ix]; if(r.size()!=(int)ix.size()) return 1; for(size_t k=0;k<ix.size();++k) if(!bad && r[int(k)]!=a[ix[k]]) return 1; }
+  catch(const std::exception&) { thrown=true; }
+  if(thrown!=bad){ std::printf("thrown=%%d expected=%%d\\n",thrown,bad); return 1; } return 0; }
+''' % (n, ','.join(idx))
